@@ -992,18 +992,23 @@ def _verbnames_exec(args):
             rec = dict(c=c, backend=bk, out=[], exp=[], err="")
             try:
                 t = base >> select(*[base[n] for n in c["vis"]])       # the other columns are hidden
+                form = c.get("form", "col")
+
+                def ref(n):
+                    return t[n] if form == "col" else pdt.C[n] if form == "cname" else n
+
                 if c["verb"] == "rename":
-                    r = t >> rename({k: v for k, v in c["map"]})
+                    r = t >> rename({(k if form == "str" else ref(k)): v for k, v in c["map"]})
                 elif c["verb"] == "select":
-                    r = t >> select(*[t[n] for n in c["args"]])
+                    r = t >> select(*[ref(n) for n in c["args"]])
                 elif c["verb"] == "drop":
-                    r = t >> drop(*[t[n] for n in c["args"]])
+                    r = t >> drop(*[ref(n) for n in c["args"]])
                 elif c["verb"] == "summarize":
-                    first = t[c["vis"][0]]
-                    g = t >> group_by(*[t[k] for k, _ in c["map"]]) if c["map"] else t
+                    first = t[c["vis"][0]] if form != "cname" else pdt.C[c["vis"][0]]
+                    g = t >> group_by(*[ref(k) for k, _ in c["map"]]) if c["map"] else t
                     r = g >> summarize(**{n: first.max() + i for i, n in enumerate(c["args"])})
                 else:
-                    first = t[c["vis"][0]]
+                    first = t[c["vis"][0]] if form != "cname" else pdt.C[c["vis"][0]]
                     r = t >> mutate(**{n: first + (i + 1) for i, n in enumerate(c["args"])})
                 rec["out"] = [col.name for col in r]
                 try:
